@@ -48,11 +48,13 @@ V1NotAboveV2 == Res("v1", TRUE).sc <= Res("v2", TRUE).sc /\ Res("v1", FALSE).sc 
 RleSound == \A k \in KindSet : Pat # <<>> =>
                (Witness(k, Text, Pat, Cs, Nrm, Sch) <=> Witness(k, Shortened(Text, Pat), Pat, Cs, Nrm, Sch))
 Thm(name, ok) == ok \/ PrintT(<<"THMFAIL", ToJson([thm |-> name, t |-> Text, p |-> Pat, cs |-> Cs, norm |-> Nrm, sch |-> Sch])>>)
-Theorems == Live =>
+TheoremsWitness == Live =>          \* C02
     /\ Thm("AgreeWitness", AgreeWitness) /\ Thm("ResultsValid", ResultsValid) /\ Thm("GreedyComplete", GreedyComplete)
-    /\ Thm("V1SpanTight", V1SpanTight) /\ Thm("V2IsSomeAlignment", V2IsSomeAlignment)
-    /\ Thm("V2NotAboveBest", V2NotAboveBest) /\ Thm("V2DirSameScore", V2DirSameScore)
-    /\ Thm("RleSound", RleSound)
+    /\ Thm("V1SpanTight", V1SpanTight) /\ Thm("RleSound", RleSound)
+TheoremsScore == Live =>            \* C03
+    /\ Thm("V2IsSomeAlignment", V2IsSomeAlignment) /\ Thm("V2NotAboveBest", V2NotAboveBest)
+    /\ Thm("V2DirSameScore", V2DirSameScore)
+Theorems == TheoremsWitness /\ TheoremsScore
 
 -------------------------------------------------------------------------------
 (* Case export (E): per live input the predicted result of all seven matchers in both scan directions, without a *)
